@@ -36,6 +36,7 @@ def required(tier):
         "shape.default_obj": 100,
         "shape.no_action": 200,
         "shape.terminal_action": 100,
+        "shape.rule_defined_in_two_places": 100,
         "builtin.cases": 300,
         "cover.call_actions": 20,
         "cover._call_reduce_action": 20,
@@ -68,11 +69,19 @@ def make_spec(ctx, g):
     for n in g.nts:
         kinds[n] = rng.choice(["none", "single", "single", "list", "list"])
     tacts = set(t for t in g.terms if rng.random() < 0.2)
-    return {"naming": {str(k): v for k, v in naming.items()}, "kinds": kinds, "tacts": sorted(tacts)}
+    split = {}
+    if len(g.nts) >= 2:
+        for n in g.nts:
+            # (a rule whose default obj action comes from named matches is not split: the
+            # documentation does not say what a later definition's named matches mean)
+            if len(g.by[n]) >= 2 and rng.random() < 0.3 and not (kinds[n] == "none" and n in named_rules):
+                split[n] = rng.randint(1, len(g.by[n]) - 1)
+    return {"naming": {str(k): v for k, v in naming.items()}, "kinds": kinds, "tacts": sorted(tacts), "split": split}
 
 
 def spec_text(g, spec, inline):
     lines = []
+    tail = []
     for n in g.order():
         alts = []
         for pi, r in g.by[n]:
@@ -85,7 +94,14 @@ def spec_text(g, spec, inline):
                 nm = names[i]
                 syms.append("%s%s%s" % (nm[0], nm[1], ref) if nm else ref)
             alts.append(" ".join(syms) if syms else "EMPTY")
-        lines.append("%s: %s;" % (n, " | ".join(alts)))
+        k = spec.get("split", {}).get(n)
+        if k and 0 < k < len(alts):
+            # the same rule defined in two places, other rules in between
+            lines.append("%s: %s;" % (n, " | ".join(alts[:k])))
+            tail.append("%s: %s;" % (n, " | ".join(alts[k:])))
+        else:
+            lines.append("%s: %s;" % (n, " | ".join(alts)))
+    lines.extend(tail)
     decl = [g.tdefs[t].decl(t) for t in g.terms if not (inline and g.tdefs[t].kind == "str" and g.tdefs[t].text == t)]
     if decl:
         lines.append("terminals")
@@ -214,6 +230,8 @@ def one_grammar(ctx, g, alphabet, maxlen):
                 ctx.count("shape.named_eq" if nm[1] == "=" else "shape.named_bool")
     if spec["tacts"]:
         ctx.count("shape.terminal_action")
+    if spec.get("split"):
+        ctx.count("shape.rule_defined_in_two_places")
     case0 = {"grammar": text, "g": g.to_json(), "spec": spec}
     if len(alphabet) >= 3 and maxlen > 3:
         maxlen = 3
